@@ -127,7 +127,7 @@ Section Eval.
   (* b = pickle.loads(pickle.dumps(a)) as observed *)
   | CPickle (a b : value).
 
-  Definition vcheck (c : vcase) : bool :=
+  Definition vcheck1 (c : vcase) : bool :=
     match c with
     | CPair a b e h t =>
         Bool.eqb (v_eqb a b) e
@@ -138,5 +138,24 @@ Section Eval.
             end)
         && Bool.eqb (atoms_eqb (v_token a) (v_token b)) t
     | CPickle a b => v_same (v_pickle a) b
+    end.
+
+  (** cases referring to a table of encoded values by index (keeps the generated files small) *)
+  Inductive icase :=
+  | CPairI (i j : nat) (eq_obs : bool) (hash_obs : option bool) (tok_obs : bool)
+  | CPickleI (i j : nat).
+
+  Definition vcheck (vals : list value) (c : icase) : bool :=
+    match c with
+    | CPairI i j e h t =>
+        match nth_error vals i, nth_error vals j with
+        | Some a, Some b => vcheck1 (CPair a b e h t)
+        | _, _ => false
+        end
+    | CPickleI i j =>
+        match nth_error vals i, nth_error vals j with
+        | Some a, Some b => vcheck1 (CPickle a b)
+        | _, _ => false
+        end
     end.
 End Eval.
